@@ -4,9 +4,10 @@
 # Output: one line per seed in /tmp/confirm/result.tsv. Worktree removed at the end.
 export GOFLAGS=-mod=mod GOPROXY=off GOSUMDB=off GOTOOLCHAIN=local
 ROOT=${1:-/verif/seeded}; shift
-WT=/tmp/confirm/wt
-OUT=/tmp/confirm/result.tsv
-mkdir -p /tmp/confirm; : > $OUT
+C=${CONFIRM_DIR:-/tmp/confirm}   # several runs may go side by side, each with its own directory
+WT=$C/wt
+OUT=$C/result.tsv
+mkdir -p $C; : > $OUT
 git -C /repo worktree remove --force $WT 2>/dev/null; rm -rf $WT
 git -C /repo worktree add --detach $WT HEAD >/dev/null 2>&1 || { echo "cannot create worktree"; exit 2; }
 IDS="$@"; [ -z "$IDS" ] && IDS=$(ls $ROOT | grep "^C[0-9][0-9]-")
@@ -19,12 +20,12 @@ for id in $IDS; do
   [ -f $src/seed_root_go.mod ] && cp $src/seed_root_go.mod $WT/SEED/go.mod
   run="$src/RUN.txt"
   # demo on the unchanged tree
-  (cd $WT && bash -e $run > /tmp/confirm/$id.clean.log 2>&1); clean=$?
+  (cd $WT && bash -e $run > $C/$id.clean.log 2>&1); clean=$?
   (cd $WT && git checkout -q -- . && git clean -fdq -e SEED)
-  if ! (cd $WT && git apply SEED/$s/patch.diff 2>/tmp/confirm/$id.apply.log); then echo -e "$id\tdoes-not-apply\tclean_demo=$clean" >> $OUT; continue; fi
-  (cd $WT && go build ./... > /tmp/confirm/$id.build.log 2>&1); build=$?
-  (cd $WT && go test -vet=off -count=1 ./... > /tmp/confirm/$id.suite.log 2>&1); suite=$?
-  (cd $WT && bash -e $run > /tmp/confirm/$id.seeded.log 2>&1); seeded=$?
+  if ! (cd $WT && git apply SEED/$s/patch.diff 2>$C/$id.apply.log); then echo -e "$id\tdoes-not-apply\tclean_demo=$clean" >> $OUT; continue; fi
+  (cd $WT && go build ./... > $C/$id.build.log 2>&1); build=$?
+  (cd $WT && go test -vet=off -count=1 ./... > $C/$id.suite.log 2>&1); suite=$?
+  (cd $WT && bash -e $run > $C/$id.seeded.log 2>&1); seeded=$?
   echo -e "$id\tclean_demo=$clean\tbuild=$build\tsuite=$suite\tseeded_demo=$seeded" >> $OUT
 done
 (cd $WT && git checkout -q -- . && git clean -fdq)
